@@ -5,6 +5,7 @@
 import LtVerif.Model.H1Parse
 import LtVerif.Proofs.H1Chunked
 import LtVerif.Proofs.H1Parse
+import LtVerif.Proofs.H1Conn
 namespace LtVerif.C01
 open LtVerif B
 
@@ -362,5 +363,406 @@ example : parseHeaders ⟨1⟩ { version := 1 }
     [ofString "Content-Length: 5\r\n", ofString "Content-Length: 5\r\n"] = .error 400 := by rfl
 example : parseHeaders ⟨1⟩ { version := 0 } [ofString "Transfer-Encoding: chunked\r\n"] = .error 400 := by rfl
 example : parseHeaders ⟨1⟩ { version := 1 } [ofString "Transfer-Encoding: gzip, chunked\r\n"] = .error 501 := by rfl
+
+
+/-! ## connection level: pipelines, keep-alive, close after rejection (Model/H1Conn.lean) -/
+
+/-- feeding a connection segment by segment (what TCP delivers) -/
+def feedSegs (cfg : ConnCfg) : ConnSt → List Bytes → ConnSt × List Event
+  | s, [] => (s, [])
+  | s, seg :: rest =>
+    ((feedSegs cfg (h1Feed cfg s seg).1 rest).1, (h1Feed cfg s seg).2 ++ (feedSegs cfg (h1Feed cfg s seg).1 rest).2)
+
+/-- **Independence from TCP segmentation.**  However the byte stream of a connection is cut into
+    segments, the final state and the sequence of events (requests with their bodies, rejections,
+    close) are those of the uncut stream. -/
+theorem c01_segmentation_conn (cfg : ConnCfg) (segs : List Bytes) (s : ConnSt) :
+    feedSegs cfg s segs = h1Feed cfg s segs.flatten := by
+  induction segs generalizing s with
+  | nil => rfl
+  | cons seg rest ih =>
+    simp only [feedSegs, List.flatten_cons]
+    rw [h1Feed_append, ih]
+
+/-- a message as sent by a client, together with the parser's reading of its head (`r`, `t`)
+    and the payload its body carries -/
+structure Msg where
+  head : Bytes
+  body : Bytes
+  r : PReq
+  t : Target
+  payload : Bytes
+
+def Msg.bytes (m : Msg) : Bytes := m.head ++ m.body
+
+/-- the event a handled message produces -/
+def Msg.event (cfg : ConnCfg) (m : Msg) : Event :=
+  .request (cfg.handler m.r m.t).status m.r.method m.r.target m.t.path m.payload (m.r.bodyLen == -1)
+
+/-- A well-formed message on a kept-alive connection: the head ends at its first blank line, does not
+    begin with a control byte, respects the size limits and is accepted by the parser as `r`,`t` with
+    keep-alive; the handler reads the body; and the body is what the accepted framing announces:
+    nothing, exactly Content-Length bytes (ANY bytes), or a chunked coding (`wire`) of the payload. -/
+structure WellFormed (cfg : ConnCfg) (m : Msg) : Prop where
+  minimal : MinimalHead m.head
+  first : firstOk m.head = true
+  size : m.head.length ≤ cfg.maxField
+  nlines : m.head.count lf + 1 < 8191
+  parse : parseHead cfg.opts cfg.maxField cfg.port m.head = .ok m.r m.t
+  keep : m.r.keepAlive = true
+  handler : (cfg.handler m.r m.t).close = false ∧ (cfg.handler m.r m.t).readsBody = true
+  framing :
+      (m.r.bodyLen = 0 ∧ m.body = [] ∧ m.payload = [])
+    ∨ (m.r.bodyLen > 0 ∧ m.body.length = m.r.bodyLen.toNat ∧ m.payload = m.body)
+    ∨ (m.r.bodyLen = -1 ∧ ∃ cs last, (∀ c ∈ cs, GoodLine c.1 c.2.length ∧ c.2 ≠ []) ∧ GoodLine last 0 ∧
+         m.body = wire cs last ∧ m.payload = cs.flatMap (·.2))
+
+/-- One well-formed message, received at the start of a request, yields exactly one request event
+    carrying exactly its payload, consumes exactly the message (the automaton is back at the start
+    of a request with an empty buffer) and advances the request counter by one. -/
+theorem c01_message_framed_exactly (cfg : ConnCfg) (hmf : cfg.maxField ≥ 1026) (hms : cfg.maxSize = 0)
+    (hidle : cfg.kaIdle ≠ 0) (m : Msg) (hw : WellFormed cfg m) (count : Nat) (bo : Bool)
+    (hcount : count ≤ cfg.maxKaReqs) :
+    h1Feed cfg { phase := .head [] 0 bo, count := count } m.bytes
+      = ({ phase := .head [] 0 true, count := count + 1 }, [m.event cfg]) := by
+  have hka : ∀ ckKa, keepAliveAfter cfg count m.r (cfg.handler m.r m.t) true ckKa = ckKa := by
+    intro ckKa
+    simp [keepAliveAfter, hw.keep, hidle, hcount, hw.handler.1]
+  unfold Msg.bytes
+  rw [h1Feed_append, headFeed cfg count bo m.head hw.minimal (firstOk_spec hw.first) hw.size hw.nlines]
+  have hdisp : dispatch cfg count m.head =
+      if m.r.bodyLen = 0 then respond cfg count m.r m.t (cfg.handler m.r m.t) [] true true
+      else if m.r.bodyLen > 0 then
+        ({ phase := .bodyCL m.r m.t (cfg.handler m.r m.t) m.r.bodyLen.toNat [], count := count }, [])
+      else ({ phase := .bodyCk m.r m.t (cfg.handler m.r m.t) {}, count := count }, []) := by
+    unfold dispatch
+    rw [hw.parse]
+    simp [hms, hw.handler.2]
+  rw [hdisp]
+  rcases hw.framing with ⟨h0, hb, hp⟩ | ⟨hpos, hlen, hp⟩ | ⟨hck, cs, last, hcs, hlast, hb, hp⟩
+  · -- no body
+    rw [if_pos h0, hb, h1Feed_nil]
+    simp [respond, hka, Msg.event, hp, h0]
+  · -- Content-Length
+    have hne0 : m.r.bodyLen ≠ 0 := by omega
+    rw [if_neg hne0, if_pos hpos]
+    have hbne : m.body ≠ [] := by
+      intro e; rw [e] at hlen; simp at hlen; omega
+    simp only
+    rw [clFeed cfg count m.r m.t _ m.body _ [] hbne hlen]
+    have hnck : (m.r.bodyLen == -1) = false := by
+      simp; omega
+    simp [respond, hka, Msg.event, hp, hnck]
+  · -- chunked
+    have hne0 : m.r.bodyLen ≠ 0 := by omega
+    have hnpos : ¬ m.r.bodyLen > 0 := by omega
+    rw [if_neg hne0, if_neg hnpos]
+    have hrt := c01_chunked_roundtrip (ckCfgOf cfg) (by simp [ckCfgOf, hms]) (by simp [ckCfgOf]; omega) cs last hcs hlast
+    have hwne : wire cs last ≠ [] := by simp [wire]
+    simp only
+    rw [hb, ckConnFeed cfg count m.r m.t _ (wire cs last) {} hwne ?_ (by rw [hrt])]
+    · rw [hrt]
+      simp [respond, hka, Msg.event, hp, hck]
+    · intro p q hpq _ hq
+      exact ck_no_early_end (ckCfgOf cfg) {} p q hq (by rw [← hpq, hrt]) (by rw [← hpq, hrt])
+
+/-- **No request smuggling.**  For every list of well-formed messages `ms` (no body, Content-Length
+    body of arbitrary bytes, or chunked body in any accepted spelling), feeding their concatenation
+    on one connection yields exactly `ms.length` request events, in order, each with exactly its
+    payload, and consumes exactly the bytes: no body byte is ever parsed as part of a request head. -/
+theorem c01_no_smuggling (cfg : ConnCfg) (hmf : cfg.maxField ≥ 1026) (hms : cfg.maxSize = 0)
+    (hidle : cfg.kaIdle ≠ 0) (ms : List Msg) (hw : ∀ m ∈ ms, WellFormed cfg m) (count : Nat) (bo : Bool)
+    (hcount : count + ms.length ≤ cfg.maxKaReqs + 1) :
+    h1Feed cfg { phase := .head [] 0 bo, count := count } (ms.flatMap Msg.bytes)
+      = ({ phase := .head [] 0 (bo || !ms.isEmpty), count := count + ms.length }, ms.map (Msg.event cfg)) := by
+  induction ms generalizing count bo with
+  | nil => simp [h1Feed_nil]
+  | cons m rest ih =>
+    simp only [List.flatMap_cons, List.length_cons] at hcount ⊢
+    rw [h1Feed_append, c01_message_framed_exactly cfg hmf hms hidle m (hw m (by simp)) count bo (by omega)]
+    simp only
+    rw [ih (fun x hx => hw x (by simp [hx])) (count + 1) true (by omega)]
+    simp
+    omega
+
+/-- the bytes of a Content-Length body are opaque: whatever they are (e.g. a complete request), the
+    next `n` bytes after the head become the body of this request and produce no event of their own -/
+theorem c01_cl_body_opaque (cfg : ConnCfg) (count : Nat) (r : PReq) (t : Target) (h : Handler) (d : Bytes)
+    (hd : d ≠ []) :
+    h1Feed cfg { phase := .bodyCL r t h d.length [], count := count } d = respond cfg count r t h d true true := by
+  simpa using clFeed cfg count r t h d d.length [] hd rfl
+
+/-- **A rejected head closes the connection.**  If the parser rejects a (minimal) request head with
+    status `e` — all the rejections of the head-level theorems above — the connection answers with
+    exactly that status and closes: `[reject e, close]`, nothing else, from this head or later bytes. -/
+theorem c01_rejected_head_closes (cfg : ConnCfg) (count : Nat) (bo : Bool) (H next : Bytes) (e : Nat)
+    (hmin : MinimalHead H) (hfirst : firstOk H = true) (hsize : H.length ≤ cfg.maxField)
+    (hnl : H.count lf + 1 < 8191) (hrej : parseHead cfg.opts cfg.maxField cfg.port H = .err e) :
+    h1Feed cfg { phase := .head [] 0 bo, count := count } (H ++ next)
+      = ({ phase := .closed, count := count }, [.reject e, .close]) := by
+  rw [h1Feed_append, headFeed cfg count bo H hmin (firstOk_spec hfirst) hsize hnl]
+  have : dispatch cfg count H = rejectWith count e := by
+    unfold dispatch; rw [hrej]
+  rw [this]
+  simp [rejectWith, h1Feed_closed]
+
+/-- **After a rejection nothing more is accepted.**  In the event sequence of ANY byte stream from ANY
+    state, a `reject` is followed by `close` and nothing else (in particular by no request), and the
+    connection is closed. -/
+theorem c01_reject_closes (cfg : ConnCfg) (bs : Bytes) : ∀ (s : ConnSt) (pre post : List Event) (st : Nat),
+    (h1Feed cfg s bs).2 = pre ++ Event.reject st :: post →
+    post = [Event.close] ∧ (h1Feed cfg s bs).1.isClosed = true := by
+  induction bs with
+  | nil => intro s pre post st h; simp [h1Feed_nil] at h
+  | cons b rest ih =>
+    intro s pre post st h
+    rw [h1Feed_cons] at h ⊢
+    have ho := h1Step_out cfg s b
+    generalize h1Step cfg s b = out at h ho ⊢
+    cases ho with
+    | silent s' _ _ => simp only [List.nil_append] at h; exact ih s' pre post st h
+    | closedIdle hc =>
+      obtain ⟨phase, c⟩ := s
+      cases phase <;> simp [ConnSt.isClosed] at hc
+      simp [h1Feed_closed] at h
+    | answered ev hr =>
+      rcases pre with _ | ⟨p, pre'⟩
+      · simp at h; rw [h.1] at hr; simp [Event.isRequest] at hr
+      · simp at h; exact ih _ pre' post st h.2
+    | answeredClose ev hr =>
+      simp only [h1Feed_closed] at h ⊢
+      rcases pre with _ | ⟨p, _ | ⟨q, pre'⟩⟩
+      · simp at h; rw [h.1] at hr; simp [Event.isRequest] at hr
+      · simp at h
+      · simp at h
+    | rejected e =>
+      simp only [h1Feed_closed] at h ⊢
+      rcases pre with _ | ⟨p, _ | ⟨q, pre'⟩⟩
+      · simp at h; simp [h.2, ConnSt.isClosed]
+      · simp at h
+      · simp at h
+    | unmodelled =>
+      simp only [h1Feed_closed] at h ⊢
+      rcases pre with _ | ⟨p, _ | ⟨q, pre'⟩⟩
+      · simp at h
+      · simp at h
+      · simp at h
+
+/-- `close` is final: no event of any kind follows it -/
+theorem c01_close_final (cfg : ConnCfg) (bs : Bytes) : ∀ (s : ConnSt) (pre post : List Event),
+    (h1Feed cfg s bs).2 = pre ++ Event.close :: post →
+    post = [] ∧ (h1Feed cfg s bs).1.isClosed = true := by
+  induction bs with
+  | nil => intro s pre post h; simp [h1Feed_nil] at h
+  | cons b rest ih =>
+    intro s pre post h
+    rw [h1Feed_cons] at h ⊢
+    have ho := h1Step_out cfg s b
+    generalize h1Step cfg s b = out at h ho ⊢
+    cases ho with
+    | silent s' _ _ => simp only [List.nil_append] at h; exact ih s' pre post h
+    | closedIdle hc =>
+      obtain ⟨phase, c⟩ := s
+      cases phase <;> simp [ConnSt.isClosed] at hc
+      simp [h1Feed_closed] at h
+    | answered ev hr =>
+      rcases pre with _ | ⟨p, pre'⟩
+      · simp at h; rw [h.1] at hr; simp [Event.isRequest] at hr
+      · simp at h; exact ih _ pre' post h.2
+    | answeredClose ev hr =>
+      simp only [h1Feed_closed] at h ⊢
+      rcases pre with _ | ⟨p, _ | ⟨q, pre'⟩⟩
+      · simp at h; rw [h.1] at hr; simp [Event.isRequest] at hr
+      · simp at h; simp [h, ConnSt.isClosed]
+      · simp at h
+    | rejected e =>
+      simp only [h1Feed_closed] at h ⊢
+      rcases pre with _ | ⟨p, _ | ⟨q, pre'⟩⟩
+      · simp at h
+      · simp at h; simp [h, ConnSt.isClosed]
+      · simp at h
+    | unmodelled =>
+      simp only [h1Feed_closed] at h ⊢
+      rcases pre with _ | ⟨p, _ | ⟨q, pre'⟩⟩
+      · simp at h
+      · simp at h; simp [h, ConnSt.isClosed]
+      · simp at h
+
+/-- number of responses (answers to accepted requests + rejections) in an event sequence -/
+def nResp (evs : List Event) : Nat := (evs.filter Event.isResponse).length
+
+/-- **One response per request, in order.**  `count` is the number of the request being received
+    (`con->request_count`).  For ANY byte stream from ANY state: the counter never decreases; while the
+    connection is open every response emitted so far advanced it by exactly one (so the k-th response
+    answers the k-th request and no request is answered twice or skipped); and in every case the number
+    of responses never exceeds the number of requests begun. -/
+theorem c01_one_response_per_request (cfg : ConnCfg) (bs : Bytes) : ∀ (s : ConnSt),
+    s.count ≤ (h1Feed cfg s bs).1.count ∧
+    ((h1Feed cfg s bs).1.isClosed = false → (h1Feed cfg s bs).1.count = s.count + nResp (h1Feed cfg s bs).2) ∧
+    nResp (h1Feed cfg s bs).2 ≤ (h1Feed cfg s bs).1.count - s.count + 1 := by
+  induction bs with
+  | nil => intro s; simp [h1Feed_nil, nResp]
+  | cons b rest ih =>
+    intro s
+    rw [h1Feed_cons]
+    have ho := h1Step_out cfg s b
+    generalize h1Step cfg s b = out at ho ⊢
+    cases ho with
+    | silent s' _ hc =>
+      obtain ⟨h1, h2, h3⟩ := ih s'
+      simp only [List.nil_append]
+      rw [hc] at h1 h2 h3
+      exact ⟨h1, h2, h3⟩
+    | closedIdle hc =>
+      obtain ⟨phase, c⟩ := s
+      cases phase <;> simp [ConnSt.isClosed] at hc
+      simp [h1Feed_closed, nResp, ConnSt.isClosed]
+    | answered ev hr =>
+      obtain ⟨h1, h2, h3⟩ := ih { phase := .head [] 0 true, count := s.count + 1 }
+      have hresp : ev.isResponse = true := isResponse_of_isRequest hr
+      simp only [nResp, List.cons_append, List.nil_append, List.filter_cons, hresp, if_true, List.length_cons] at h1 h2 h3 ⊢
+      refine ⟨by omega, fun hcl => ?_, by omega⟩
+      have := h2 hcl
+      omega
+    | answeredClose ev hr =>
+      have hresp : ev.isResponse = true := isResponse_of_isRequest hr
+      simp [h1Feed_closed, nResp, ConnSt.isClosed, List.filter_cons, hresp]
+    | rejected e => simp [h1Feed_closed, nResp, ConnSt.isClosed, List.filter_cons]
+    | unmodelled => simp [h1Feed_closed, nResp, ConnSt.isClosed, List.filter_cons]
+
+/-- every single byte produces at most one response -/
+theorem c01_step_one_response (cfg : ConnCfg) (s : ConnSt) (b : UInt8) : nResp (h1Step cfg s b).2 ≤ 1 := by
+  have ho := h1Step_out cfg s b
+  generalize h1Step cfg s b = out at ho ⊢
+  cases ho with
+  | silent _ _ _ => simp [nResp]
+  | closedIdle _ => simp [nResp]
+  | answered ev hr => simp [nResp, List.filter_cons, isResponse_of_isRequest hr]
+  | answeredClose ev hr => simp [nResp, List.filter_cons, isResponse_of_isRequest hr]
+  | rejected e => simp [nResp, List.filter_cons]
+  | unmodelled => simp [nResp, List.filter_cons]
+
+/-- one CRLF (or bare LF) before a keep-alive request is skipped -- independently of how it is cut into
+    segments, by `c01_segmentation_conn` -- and a second blank line is rejected -/
+theorem c01_blank_line_between_requests (cfg : ConnCfg) (count : Nat) (H : Bytes)
+    (hmin : MinimalHead H) (hfirst' : firstOk H = true) (hsize : H.length ≤ cfg.maxField)
+    (hnl : H.count lf + 1 < 8191) :
+    h1Feed cfg { phase := .head [] 0 true, count := count } ([cr, lf] ++ H) = dispatch cfg count H ∧
+    h1Feed cfg { phase := .head [] 0 true, count := count } ([lf] ++ H) = dispatch cfg count H ∧
+    h1Feed cfg { phase := .head [] 0 true, count := count } ([cr, lf, cr, lf] ++ H)
+      = ({ phase := .closed, count := count }, [.reject 400, .close]) := by
+  have hfirst := firstOk_spec hfirst'
+  have hne : H ≠ [] := by intro h; subst h; simp [MinimalHead, headEnd] at hmin
+  obtain ⟨b, rest, rfl⟩ : ∃ b rest, H = b :: rest := by
+    cases H with
+    | nil => exact absurd rfl hne
+    | cons b rest => exact ⟨b, rest, rfl⟩
+  have hb := hfirst b rfl
+  have hcr : b ≠ cr := by intro e; subst e; exact hb (by decide)
+  have hlf : b ≠ lf := by intro e; subst e; exact hb (by decide)
+  have key := headFeed cfg count false (b :: rest) hmin hfirst hsize hnl
+  rw [h1Feed_cons] at key
+  have hs0 : h1Step cfg { phase := .head [] 0 false, count := count } b = headByte cfg count [] 0 b := by
+    simp [h1Step]
+  rw [hs0] at key
+  refine ⟨?_, ?_, ?_⟩
+  · simp only [List.cons_append, List.nil_append]
+    rw [h1Feed_cons, h1Feed_cons, h1Feed_cons]
+    simp [h1Step, cr, lf] at *
+    simpa [h1Step, hcr, hlf, cr, lf] using key
+  · simp only [List.cons_append, List.nil_append]
+    rw [h1Feed_cons, h1Feed_cons]
+    simp [h1Step, cr, lf] at *
+    simpa [h1Step, hcr, hlf, cr, lf] using key
+  · simp only [List.cons_append, List.nil_append]
+    rw [h1Feed_cons, h1Feed_cons, h1Feed_cons]
+    simp [h1Step, cr, lf, rejectWith, h1Feed_closed]
+
+/-! non-vacuity (connection level) -/
+section Examples
+/-- default parse options; every request is handled by a body-reading handler -/
+def exCfg : ConnCfg := { opts := ⟨0x257f⟩, handler := fun _ _ => { status := 200, readsBody := true } }
+
+/-- what the parser reads from a head (dummy values if it does not accept it) -/
+def parsed (head : Bytes) : PReq × Target :=
+  match parseHead exCfg.opts exCfg.maxField exCfg.port head with
+  | .ok r t => (r, t)
+  | _ => ({}, { target := [], path := [], query := [] })
+
+def accepted (head : Bytes) : Bool :=
+  match parseHead exCfg.opts exCfg.maxField exCfg.port head with
+  | .ok _ _ => true
+  | _ => false
+
+def rejectedWith (head : Bytes) (e : Nat) : Bool :=
+  match parseHead exCfg.opts exCfg.maxField exCfg.port head with
+  | .err e' => e' == e
+  | _ => false
+
+private theorem parsed_spec (head : Bytes) (h : accepted head = true) :
+    parseHead exCfg.opts exCfg.maxField exCfg.port head = .ok (parsed head).1 (parsed head).2 := by
+  unfold accepted at h
+  unfold parsed
+  cases hX : parseHead exCfg.opts exCfg.maxField exCfg.port head <;> simp_all
+
+private theorem rejectedWith_spec (head : Bytes) (e : Nat) (h : rejectedWith head e = true) :
+    parseHead exCfg.opts exCfg.maxField exCfg.port head = .err e := by
+  unfold rejectedWith at h
+  cases hX : parseHead exCfg.opts exCfg.maxField exCfg.port head <;> simp_all
+
+/-- a message whose `r`,`t` are what the parser reads from its head -/
+def msgOf (head body payload : Bytes) : Msg :=
+  { head := head, body := body, r := (parsed head).1, t := (parsed head).2, payload := payload }
+
+def exGet : Bytes := ofString "GET /a HTTP/1.1\r\nHost: h\r\n\r\n"
+def exPost : Bytes := ofString "POST /e HTTP/1.1\r\nHost: h\r\nContent-Length: 18\r\n\r\n"
+def exBody : Bytes := ofString "GET /x HTTP/1.1\r\n\r"     -- an 18-byte body that looks like a request
+def exChunked : Bytes := ofString "POST /e HTTP/1.1\r\nHost: h\r\nTransfer-Encoding: chunked\r\n\r\n"
+def mGet : Msg := msgOf exGet [] []
+def mPost : Msg := msgOf exPost exBody exBody
+def mChunked : Msg := msgOf exChunked (wire [(ofString "3;x=y\r\n", ofString "abc")] (ofString "0\r\n")) (ofString "abc")
+
+private theorem wfGet : WellFormed exCfg mGet :=
+  { minimal := by decide +kernel, first := by decide +kernel, size := by decide +kernel, nlines := by decide +kernel,
+    parse := parsed_spec _ (by decide +kernel), keep := by decide +kernel, handler := ⟨rfl, rfl⟩,
+    framing := .inl ⟨by decide +kernel, rfl, rfl⟩ }
+private theorem wfPost : WellFormed exCfg mPost :=
+  { minimal := by decide +kernel, first := by decide +kernel, size := by decide +kernel, nlines := by decide +kernel,
+    parse := parsed_spec _ (by decide +kernel), keep := by decide +kernel, handler := ⟨rfl, rfl⟩,
+    framing := .inr (.inl ⟨by decide +kernel, by decide +kernel, rfl⟩) }
+private theorem wfChunked : WellFormed exCfg mChunked :=
+  { minimal := by decide +kernel, first := by decide +kernel, size := by decide +kernel, nlines := by decide +kernel,
+    parse := parsed_spec _ (by decide +kernel), keep := by decide +kernel, handler := ⟨rfl, rfl⟩,
+    framing := .inr (.inr ⟨by decide +kernel, [(ofString "3;x=y\r\n", ofString "abc")], ofString "0\r\n",
+      by
+        intro c hc
+        simp only [List.mem_singleton] at hc
+        subst hc
+        exact ⟨⟨by rfl, ⟨ofString "3;x=y\r", by decide, by decide, by decide⟩, by decide⟩, by decide⟩,
+      ⟨by rfl, ⟨ofString "0\r", by decide, by decide, by decide⟩, by decide⟩, rfl, rfl⟩) }
+
+-- the hypotheses of `c01_no_smuggling` are satisfiable: GET, POST whose Content-Length body looks like a
+-- request, chunked POST -- exactly three request events carrying [], the look-alike body, "abc"
+example : (h1Feed exCfg {} ([mGet, mPost, mChunked].flatMap Msg.bytes)).2
+    = [mGet.event exCfg, mPost.event exCfg, mChunked.event exCfg] := by
+  have := c01_no_smuggling exCfg (by decide) rfl (by decide) [mGet, mPost, mChunked]
+    (by intro m hm
+        simp only [List.mem_cons, List.not_mem_nil, or_false] at hm
+        rcases hm with rfl | rfl | rfl
+        · exact wfGet
+        · exact wfPost
+        · exact wfChunked) 1 false (by decide)
+  rw [show ({ } : ConnSt) = { phase := .head [] 0 false, count := 1 } from rfl, this]
+  rfl
+example : mPost.payload = ofString "GET /x HTTP/1.1\r\n\r" := rfl
+-- HTTP/1.1 without Host is rejected (`c01_rejected_head_closes`), and the request after it is never looked at
+example : (h1Feed exCfg {} (ofString "GET / HTTP/1.1\r\n\r\nGET /a HTTP/1.1\r\nHost: h\r\n\r\n")).2
+    = [.reject 400, .close] := by decide +kernel
+example : MinimalHead (ofString "GET / HTTP/1.1\r\n\r\n") ∧
+    parseHead exCfg.opts exCfg.maxField exCfg.port (ofString "GET / HTTP/1.1\r\n\r\n") = .err 400 :=
+  ⟨by decide +kernel, rejectedWith_spec _ _ (by decide +kernel)⟩
+-- a blank line cut between CR and LF is skipped like an uncut one (`c01_segmentation_conn`)
+example : (feedSegs exCfg {} [exGet ++ [cr], [lf] ++ exGet]).2.length = 2 := by decide +kernel
+end Examples
 
 end LtVerif.C01
